@@ -36,6 +36,7 @@ ASSUMPTIONS = [
 BIASES = ["path", "transform", "colour", "length", "points", "viewbox", "number", "use", "container", "used", "edge", "style", "absent", "clip"]
 STEP_K = 250
 STEP_C = 50000
+RUNAWAY_CALLS = 8_000_000
 SIZES = [1, 2, 3, 5, 7, 16, 64, 1000, None]
 MODES = ["stringio", "bytesio", "stream-bytes", "stream-text", "simfs"]
 
@@ -48,6 +49,11 @@ def generate(seed, index, tier):
     ch = core.Chooser(seed)
     heavy = index % 5 == 0
     doc = gd.gen_doc(ch, max_elems=ch.int(3, 12), max_depth=3, use_heavy=heavy, extra_kinds=index % 3 == 1)
+    if index % 37 == 5:
+        # a document whose outermost element is not an svg (a bare group): no SVG object to register ids with
+        doc["tag"] = "g"
+        for a in ("width", "height", "viewBox", "preserveAspectRatio", "x", "y"):
+            doc["attrs"].pop(a, None)
     st = index % 29  # prime: every bias meets every other index-derived stratum (steps, poison, heavy, extra kinds)
     case = {"faults": []}
     if st == 28:
@@ -86,6 +92,32 @@ def generate(seed, index, tier):
                     sib = {"tag": "rect", "attrs": {"x": "1", "y": "2", "width": "30", "height": "20", "style": "%s:#%s" % (f["attr"], H), "data-n": str(nmax)}, "kids": [], "text": None, "n": nmax}
                     parent["kids"].insert(parent["kids"].index(e) + 1, sib)
             break
+    if index % 499 == 7:
+        # a very long literal: matching it must stay cheap (no step counter sees inside the regex engine; what
+        # reports super-linear matching is the wall-clock watchdog, which these sizes miss or exceed by two orders)
+        opts_l = []
+        for e in gd.walk(doc):
+            if e["tag"] in ("polyline", "polygon"):
+                opts_l.append((e, "points", "1" * 2000))
+            elif e["tag"] in ("rect", "circle", "ellipse", "path", "line"):
+                opts_l.append((e, "fill", "rgb(" + "1" * 40000))
+                opts_l.append((e, "transform", "translate(" + "1" * 40000))
+        if opts_l:
+            e, a, v = ch.choice(opts_l)
+            e["attrs"][a] = v
+            case["faults"].append({"n": e["n"], "tag": e["tag"], "attr": a, "kind": "long-literal", "value": v[:12] + "...(%d)" % len(v)})
+    if index % 331 == 17:
+        # nesting deeper than the interpreter's recursion limit: the root's content is wrapped in that many groups
+        case["nest"] = ch.choice([300, 1200, 1200, 4000])
+    elif index % 331 == 170:
+        # a long acyclic chain of uses, each instantiating the one before it
+        nmax = max(e["n"] for e in gd.walk(doc))
+        ln = ch.choice([40, 90, 150])  # every use is expanded where it stands: the work is quadratic in the length
+        kids = [{"tag": "rect", "attrs": {"id": "chain0", "x": "1", "y": "2", "width": "3", "height": "4", "data-n": str(nmax + 1)}, "kids": [], "text": None, "n": nmax + 1}]
+        for i in range(1, ln):
+            kids.append({"tag": "use", "attrs": {ch.choice(["href", "xlink:href"]): "#chain%d" % (i - 1), "id": "chain%d" % i, "data-n": str(nmax + 1 + i)}, "kids": [], "text": None, "n": nmax + 1 + i})
+        doc["kids"].extend(kids)
+        case["chain"] = ln
     case["doc"] = doc
     case["bias"] = bias
     case["delivery"] = _delivery(ch)
@@ -111,7 +143,7 @@ def generate(seed, index, tier):
         # make sure it has a style sheet and colliding ids: the state most likely to be kept by mistake
         pdoc["kids"].insert(0, {"tag": "style", "attrs": {"data-n": "9001"}, "kids": [], "text": "rect { fill: #0a0b0c; stroke: lime } .c1 { stroke-width: 7 } #e1 { fill: orange } * { stroke-opacity: 0.3 }", "n": 9001})
         case["poison"] = gd.serialise(pdoc)
-    case["steps"] = bool(index % 4 == 1)
+    case["steps"] = bool(index % 4 == 1) and not case.get("nest") and not case.get("chain")
     case["reference_first"] = bool((index // 4) % 2)
     return case
 
@@ -121,9 +153,22 @@ def generate(seed, index, tier):
 # --------------------------------------------------------------------------
 
 
+class Runaway(Exception):
+    pass
+
+
 def deliver_and_parse(se, xml, delivery, out, counter, **kw):
-    """(se may be the long-lived module or a pristine instance of it)"""
-    return _deliver_and_parse(se, xml, delivery, out, counter, **kw)
+    """(se may be the long-lived module or a pristine instance of it). Unless a budget is already running (the
+    parse under test), the call runs under the flat runaway bound and raises Runaway when it exceeds it."""
+    if core.STEPS.active:
+        return _deliver_and_parse(se, xml, delivery, out, counter, **kw)
+    core.STEPS.start(RUNAWAY_CALLS, coarse=True)
+    try:
+        return _deliver_and_parse(se, xml, delivery, out, counter, **kw)
+    except core.StepBudgetExceeded:
+        raise Runaway("a parse of %d chars did not finish within %d function entries and generator resumptions" % (len(xml), RUNAWAY_CALLS))
+    finally:
+        core.STEPS.stop()
 
 
 def _deliver_and_parse(se, xml, delivery, out, counter, **kw):
@@ -173,6 +218,17 @@ def _pos_class(doc, n):
     return "?"
 
 
+def _nested(xml, n):
+    """The serialised document with the content of its outermost element wrapped in n groups."""
+    if not n:
+        return xml
+    i = xml.index(">", xml.index("<", xml.index("?>") + 2 if xml.startswith("<?xml") else 0))
+    if xml[i - 1] == "/":
+        return xml
+    j = xml.rindex("</")
+    return xml[: i + 1] + "<g>" * n + xml[i + 1 : j] + "</g>" * n + xml[j:]
+
+
 def execute(case, se, out, trace):
     V = core.Violation
     doc = case["doc"]
@@ -188,7 +244,9 @@ def execute(case, se, out, trace):
         out.state(" + ".join(sorted(cells)))
     else:
         out.state("control|%s" % case["delivery"]["mode"])
-    xml = gd.serialise(doc)
+    xml = _nested(gd.serialise(doc), case.get("nest"))
+    if case.get("nest"):
+        out.count("fault:deep-nesting")
     trace.ev("doc", xml)
     f0 = faults[0] if len(faults) == 1 else ({"tag": "multi", "attr": "multi", "kind": "+".join(sorted(set(f["kind"] for f in faults)))} if faults else {"tag": "-", "attr": "-", "kind": "none"})
     counter = {}
@@ -200,19 +258,26 @@ def execute(case, se, out, trace):
     if case.get("reference_first") and faults and doc["n"] not in offending:
         # the schedule decides which of the two documents the process sees first
         try:
-            pre_ref = deliver_and_parse(se_ref, gd.serialise(gd.remove_elements(doc, offending)), case["delivery_ref"], out, {}, **case.get("opts", {}))
+            pre_ref = deliver_and_parse(se_ref, _nested(gd.serialise(gd.remove_elements(doc, offending)), case.get("nest")), case["delivery_ref"], out, {}, **case.get("opts", {}))
             pre_ref = ("ok", pre_ref)
             out.count("probe:reference-parsed-first")
+        except Runaway as e:
+            raise V("steps", ["reference", "runaway"], "the document without the offending element(s): %s" % e)
         except Exception as e:
             if core.is_harness_exc(e):
                 raise
             pre_ref = ("raised", e)
     # ---- 1+2: the damaged document must parse
-    budget = None
+    # every parse of the check runs under a deterministic budget: the calibrated line-step budget where the steps
+    # oracle is on, a flat bound on function entries and generator resumptions (a tenth of the cost of counting
+    # lines) everywhere else, so that a parse that never ends is a violation, not a stuck harness
     if case.get("steps"):
         n_inst, chars = gd.expanded_size(doc)
         budget = STEP_K * (chars + 80 * n_inst) + STEP_C
         core.STEPS.start(budget)
+    else:
+        budget = RUNAWAY_CALLS
+        core.STEPS.start(budget, coarse=True)
     exc = None
     svg = None
     try:
@@ -223,18 +288,17 @@ def execute(case, se, out, trace):
         exc = e
     except Exception as e:
         exc = e
-    if case.get("steps"):
-        steps = core.STEPS.stop()
-        out.steps += steps
-        if core.STEPS.exceeded:
-            raise V("steps", [f0["tag"], f0["attr"], f0["kind"]], "SVG.parse did not finish within %d line steps (document of %d chars)" % (budget, len(xml)))
+    steps = core.STEPS.stop()
+    out.steps += steps
+    if core.STEPS.exceeded:
+        raise V("steps", [f0["tag"], f0["attr"], f0["kind"]] + ([] if case.get("steps") else ["runaway"]), "SVG.parse did not finish within %d %s (document of %d chars)" % (budget, "line steps" if case.get("steps") else "function entries and generator resumptions", len(xml)))
     for k, v in counter.items():
         out.count("fault:delivery-" + k, v)
     out.count("events", 1)
     if exc is not None and core.is_harness_exc(exc):
         raise core.HarnessFault("exception from the harness inside SVG.parse: %r" % exc) from exc
     if exc is not None:
-        raise V("no-raise", [type(exc).__name__, core.exc_sig(exc)[1], f0["tag"], f0["attr"], f0["kind"]], "SVG.parse raised %r for fault(s) %s" % (exc, _fdesc(faults)))
+        raise V("no-raise", [type(exc).__name__, core.exc_sig(exc)[1], f0["tag"], f0["attr"], f0["kind"]], "SVG.parse raised %r for fault(s) %s%s" % (exc, _fdesc(faults), " (content nested in %d groups)" % case["nest"] if case.get("nest") else ""))
     trace.ev("parsed", type(svg).__name__)
     # ---- 3: isolation
     root_n = doc["n"]
@@ -242,7 +306,7 @@ def execute(case, se, out, trace):
         out.count("probe:fault-on-root")
         return
     ref_doc = gd.remove_elements(doc, offending)
-    xml_ref = gd.serialise(ref_doc)
+    xml_ref = _nested(gd.serialise(ref_doc), case.get("nest"))
     if pre_ref is not None:
         if pre_ref[0] == "raised":
             out.count("skip:reference-raises")
@@ -251,6 +315,8 @@ def execute(case, se, out, trace):
     else:
         try:
             svg_ref = deliver_and_parse(se_ref, xml_ref, case["delivery_ref"], out, {}, **case.get("opts", {}))
+        except Runaway as e:
+            raise V("steps", ["reference", "runaway"], "the document without the offending element(s): %s" % e)
         except Exception as e:
             if core.is_harness_exc(e):
                 raise
@@ -316,12 +382,16 @@ def execute(case, se, out, trace):
     if case.get("poison"):
         first = ob.observe_doc(se, svg)
         try:
-            se.SVG.parse(io.StringIO(case["poison"]))
+            deliver_and_parse(se, case["poison"], {"mode": "stringio", "sizes": [None]}, out, {})
+        except Runaway as e:
+            raise V("steps", ["poison", "runaway"], "the unrelated document: %s" % e)
         except Exception:
             pass
         out.count("fault:poison-parse-between")
         try:
             svg2 = deliver_and_parse(se, xml, case["delivery_ref"], out, {}, **case.get("opts", {}))
+        except Runaway as e:
+            raise V("steps", ["second-parse", "runaway"], "the same document after an unrelated one: %s" % e)
         except Exception as e:
             if core.is_harness_exc(e):
                 raise
